@@ -1,7 +1,321 @@
-//! Lane `escape` (stub).
-use crate::out::Out;
+//! Lane `escape` (C09): real `ldap_escape`, `dn_escape`, `ldap_unescape` vs Model.Escape, and the
+//! property oracles: Lean `Spec.Dn` / `Spec.readFilterValue` on the real outputs, the real filter
+//! parser on `(a=<escaped>)`, and the round trips.
+use crate::fmtx::*;
+use crate::lanes::ber::real_encode;
+use crate::out::{guarded, Out};
 use crate::rng::Rng;
+use ldap3::{dn_escape, ldap_escape, ldap_unescape, parse_filter};
+use lber::common::TagClass;
+use lber::parse::parse_tag;
+use lber::structure::PL;
+use lber::structures::ASNTag;
 
-pub fn run(_thorough: bool, _rng: Rng, out: Out) {
-    out.finish("stub lane: nothing generated yet");
+/// NUL SP # " + , ; < = > \ ( ) * a é(2 bytes) 𝄞(4 bytes) DEL 0x01
+const ALPHABET: &[&str] = &[
+    "\0", " ", "#", "\"", "+", ",", ";", "<", "=", ">", "\\", "(", ")", "*", "a", "\u{e9}", "\u{1D11E}", "\u{7f}", "\u{1}",
+];
+
+/// symbols for `ldap_unescape` inputs: backslash, hex digits of both cases, non-hex, multi-byte
+const UNESC_ALPHABET: &[&str] = &["\\", "2", "a", "F", "g", "c", "3", "8", "0", "\u{e9}"];
+
+fn ldap_needs(b: u8) -> bool {
+    matches!(b, 0 | b'(' | b')' | b'*' | b'\\')
+}
+
+/// RFC 4514: must this byte at this position be escaped?  (independent of the code's predicate:
+/// the code additionally escapes '=', which the RFC permits but does not require)
+fn dn_needs_rfc(v: &[u8], i: usize) -> bool {
+    let b = v[i];
+    matches!(b, 0 | b'"' | b'+' | b',' | b';' | b'<' | b'>' | b'\\')
+        || (i == 0 && (b == b' ' || b == b'#'))
+        || (i + 1 == v.len() && b == b' ')
+}
+
+fn esc_outcome(f: impl FnOnce() -> String + std::panic::UnwindSafe) -> Option<String> {
+    guarded(f).ok()
+}
+
+/// decode `(a=<value>)` as the real parser built it: BER of [3] { OCTET STRING "a", OCTET STRING value }
+fn filter_value(filter: &str) -> Result<Vec<u8>, String> {
+    let f = filter.to_string();
+    let enc = guarded(move || match parse_filter(&f) {
+        Ok(t) => Ok(real_encode(&t.into_structure())),
+        Err(()) => Err(String::from("parse_filter rejected")),
+    })
+    .map_err(|_| String::from("panic"))??;
+    let (rest, t) = parse_tag(&enc).map_err(|_| String::from("BER of the filter does not parse"))?;
+    if !rest.is_empty() {
+        return Err(String::from("trailing bytes after the filter"));
+    }
+    if t.class != TagClass::Context || t.id != 3 {
+        return Err(format!("not an equalityMatch: class {} id {}", cls_num(t.class), t.id));
+    }
+    match t.payload {
+        PL::C(ks) => {
+            if ks.len() != 2 {
+                return Err(format!("{} children", ks.len()));
+            }
+            let mut vals = vec![];
+            for k in &ks {
+                if k.class != TagClass::Universal || k.id != 4 {
+                    return Err(String::from("child is not an OCTET STRING"));
+                }
+                match &k.payload {
+                    PL::P(v) => vals.push(v.clone()),
+                    PL::C(_) => return Err(String::from("constructed child")),
+                }
+            }
+            if vals[0] != b"a" {
+                return Err(format!("attribute description {}", hex(&vals[0])));
+            }
+            Ok(vals[1].clone())
+        }
+        PL::P(_) => Err(String::from("primitive filter")),
+    }
+}
+
+fn show(v: &str) -> String {
+    hex(v.as_bytes())
+}
+
+fn escape_case(out: &mut Out, v: &str, class: &str) {
+    let vb = v.as_bytes();
+    let hv = show(v);
+    let any_ldap = vb.iter().any(|&b| ldap_needs(b));
+    let any_dn = (0..vb.len()).any(|i| dn_needs_rfc(vb, i) || vb[i] == b'=');
+    out.case(&format!("esc {}", hv), any_ldap || any_dn);
+    out.stat(&format!("{}.len={}", class, if v.chars().count() > 8 { String::from(">8") } else { v.chars().count().to_string() }));
+    if any_ldap {
+        out.stat("needs.ldap");
+    }
+    if any_dn {
+        out.stat("needs.dn");
+    }
+    if !vb.is_empty() && (vb[0] == b' ' || vb[0] == b'#' || vb[vb.len() - 1] == b' ') {
+        out.stat("dn.position-dependent");
+    }
+
+    // ---- ldap_escape
+    let s = v.to_string();
+    match esc_outcome(move || ldap_escape(s.as_str()).into_owned()) {
+        Some(e) => {
+            out.m(&format!("esc.ldap {}", hv), &show(&e));
+            // spec oracle: the independent RFC 4515 value reader gives back v
+            out.o(&format!("spec.filtervalue.read {}", show(&e)), &format!("ok {}", hv));
+            // no structural byte survives
+            let inert = !e.bytes().any(|b| matches!(b, 0 | b'(' | b')' | b'*'));
+            out.r(&format!("ldap_escape.inert {}", hv), inert, &format!("output {} contains NUL ( ) or *", show(&e)));
+            // the real filter parser sees one equality assertion with value exactly v
+            let filt = format!("(a={})", e);
+            match filter_value(&filt) {
+                Ok(got) => out.r(&format!("filter.value {}", hv), got == vb, &format!("parser read value {}", hex(&got))),
+                Err(why) => out.r(&format!("filter.value {}", hv), false, &why),
+            }
+            // round trip
+            let e2 = e.clone();
+            match guarded(move || ldap_unescape(e2.as_str()).map(|c| c.into_owned())) {
+                Ok(Ok(back)) => {
+                    out.m(&format!("unesc.ldap {}", show(&e)), &format!("ok {}", show(&back)));
+                    out.r(&format!("unescape.escape {}", hv), back == v, &format!("got {}", show(&back)));
+                }
+                Ok(Err(_)) => {
+                    out.m(&format!("unesc.ldap {}", show(&e)), "err");
+                    out.r(&format!("unescape.escape {}", hv), false, "ldap_unescape(ldap_escape(v)) is an error");
+                }
+                Err(_) => {
+                    out.m(&format!("unesc.ldap {}", show(&e)), "panic");
+                    out.r(&format!("unescape.escape {}", hv), false, "panic");
+                }
+            }
+            if !any_ldap {
+                out.r(&format!("ldap_escape.noop {}", hv), e == v, &format!("changed to {}", show(&e)));
+            }
+        }
+        None => {
+            out.m(&format!("esc.ldap {}", hv), "panic");
+            out.r(&format!("ldap_escape.total {}", hv), false, "panic");
+        }
+    }
+
+    // ---- dn_escape
+    let s = v.to_string();
+    match esc_outcome(move || dn_escape(s.as_str()).into_owned()) {
+        Some(e) => {
+            out.m(&format!("esc.dn {}", hv), &show(&e));
+            // spec oracle: the RFC 4514 reader reads the value v and stops at the separator
+            let mut dn = e.clone().into_bytes();
+            dn.extend_from_slice(b",dc=x");
+            out.o(&format!("spec.dn.readvalue {}", hex(&dn)), &format!("ok {} rest=5", hv));
+            if !any_dn {
+                out.r(&format!("dn_escape.noop {}", hv), e == v, &format!("changed to {}", show(&e)));
+            }
+        }
+        None => {
+            out.m(&format!("esc.dn {}", hv), "panic");
+            out.r(&format!("dn_escape.total {}", hv), false, "panic");
+        }
+    }
+}
+
+/// structure oracle: a two-RDN DN with a multi-valued first RDN, values escaped by the real code
+fn dn_structure_case(out: &mut Out, v: &str, w: &str) {
+    let (a, b) = (v.to_string(), w.to_string());
+    match esc_outcome(move || format!("cn={}+2.5.4.4={},dc={}", dn_escape(a.as_str()), dn_escape(b.as_str()), dn_escape(a.as_str()))) {
+        Some(dn) => {
+            out.o(
+                &format!("spec.dn.parse {}", show(&dn)),
+                &format!("ok {}=s:{}+{}=s:{};{}=s:{}", hex(b"cn"), show(v), hex(b"2.5.4.4"), show(w), hex(b"dc"), show(v)),
+            );
+        }
+        None => out.r(&format!("dn.structure {} {}", show(v), show(w)), false, "panic"),
+    }
+}
+
+fn unescape_case(out: &mut Out, s: &str, class: &str) {
+    let hs = show(s);
+    out.case(&format!("unesc {}", hs), s.contains('\\'));
+    out.stat(class);
+    let t = s.to_string();
+    let ans = match guarded(move || ldap_unescape(t.as_str()).map(|c| c.into_owned())) {
+        Ok(Ok(u)) => {
+            out.stat("unesc.ok");
+            if !s.contains('\\') {
+                out.r(&format!("ldap_unescape.noop {}", hs), u == s, &format!("changed to {}", show(&u)));
+            }
+            format!("ok {}", show(&u))
+        }
+        Ok(Err(_)) => {
+            out.stat("unesc.err");
+            String::from("err")
+        }
+        Err(_) => String::from("panic"),
+    };
+    out.m(&format!("unesc.ldap {}", hs), &ans);
+}
+
+fn enumerate(alphabet: &[&str], max_len: usize, f: &mut dyn FnMut(&str)) {
+    fn go(alphabet: &[&str], left: usize, cur: &mut String, f: &mut dyn FnMut(&str)) {
+        f(cur.as_str());
+        if left == 0 {
+            return;
+        }
+        for s in alphabet {
+            let n = cur.len();
+            cur.push_str(s);
+            go(alphabet, left - 1, cur, f);
+            cur.truncate(n);
+        }
+    }
+    let mut cur = String::new();
+    go(alphabet, max_len, &mut cur, f);
+}
+
+fn random_char(rng: &mut Rng) -> char {
+    match rng.below(10) {
+        0..=2 => (rng.below(128) as u8) as char,
+        3..=4 => *rng.pick(&['\0', ' ', '#', '"', '+', ',', ';', '<', '=', '>', '\\', '(', ')', '*']),
+        5 => char::from_u32(rng.range(0x80, 0x7ff) as u32).unwrap(),
+        6 => {
+            let c = rng.range(0x800, 0xffff) as u32;
+            char::from_u32(c).unwrap_or('\u{fffd}')
+        }
+        7 => char::from_u32(rng.range(0x10000, 0x10ffff) as u32).unwrap(),
+        _ => *rng.pick(&['a', 'Z', '0', '\u{e9}', '\u{1D11E}', '\u{7f}', '\u{1}', '\u{d7ff}', '\u{e000}', '\u{10ffff}', '\u{800}', '\u{80}']),
+    }
+}
+
+fn random_string(rng: &mut Rng) -> String {
+    let n = rng.range(0, 40);
+    (0..n).map(|_| random_char(rng)).collect()
+}
+
+fn random_unesc_input(rng: &mut Rng) -> String {
+    let n = rng.range(0, 8);
+    let mut s = String::new();
+    for _ in 0..n {
+        match rng.below(12) {
+            0..=2 => s.push(random_char(rng)),
+            3..=5 => s.push_str(&format!("\\{:02x}", rng.below(256))),
+            6 => s.push_str(&format!("\\{:02X}", rng.below(256))),
+            7 => s.push_str("\\c3\\a9"),
+            8 => s.push_str("\\f0\\9d\\84\\9e"),
+            9 => s.push('\\'),
+            10 => {
+                s.push('\\');
+                s.push(*rng.pick(&['g', 'G', ' ', '\\', 'x', '/', ':', '@', '`']));
+            }
+            _ => {
+                s.push('\\');
+                s.push(*rng.pick(&['0', '9', 'a', 'f', 'A', 'F', 'c']));
+            }
+        }
+    }
+    s
+}
+
+pub fn run(thorough: bool, mut rng: Rng, mut out: Out) {
+    // ---- corpus: the position-dependent dn rules and the examples of Props/C09.lean first
+    for v in ["", " ", "  ", "   ", "# ", "#", "a#", " #", "#rust", " foo", "foo ", "f o o", "a\\*(b)\0", "a=b", "\u{e9} ", " \u{1D11E}", "Smith, John", "a+b", "\\20"] {
+        escape_case(&mut out, v, "corpus");
+    }
+    for s in ["\\", "\\2", "\\2a", "\\2A", "\\2g", "\\g2", "a\\", "\\c3", "\\c3\\a9", "\\C3\\A9", "\\ff", "\\80", "\\5c5c", "\\5c\\5c", "a\\00b", "\\e9", "\\ed\\a0\\80", "\\f4\\90\\80\\80", "\u{e9}\\", "\u{e9}\\41"] {
+        unescape_case(&mut out, s, "unesc.corpus");
+    }
+    // ---- exhaustive: short strings over the metacharacter alphabet
+    let max_len = if thorough { 4 } else { 3 };
+    let mut all: Vec<String> = vec![];
+    enumerate(ALPHABET, max_len, &mut |s| all.push(s.to_string()));
+    for v in &all {
+        escape_case(&mut out, v, "alphabet");
+        // the same strings also as `ldap_unescape` input (a backslash followed by non-hex)
+        unescape_case(&mut out, v, "unesc.alphabet");
+    }
+    // DN structure on all pairs of strings of length <= 1 (quick) / <= 2 (thorough)
+    let mut small: Vec<String> = vec![];
+    enumerate(ALPHABET, if thorough { 2 } else { 1 }, &mut |s| small.push(s.to_string()));
+    for v in &small {
+        for w in &small {
+            dn_structure_case(&mut out, v, w);
+        }
+    }
+    // ---- all 128 ASCII singletons and all ASCII pairs
+    for a in 0u8..128 {
+        let s = (a as char).to_string();
+        escape_case(&mut out, &s, "ascii1");
+        unescape_case(&mut out, &s, "unesc.ascii1");
+        for b in 0u8..128 {
+            let mut t = s.clone();
+            t.push(b as char);
+            escape_case(&mut out, &t, "ascii2");
+        }
+    }
+    // ---- ldap_unescape: exhaustive short inputs over backslash / hex / non-hex / multi-byte
+    let mut us: Vec<String> = vec![];
+    enumerate(UNESC_ALPHABET, if thorough { 5 } else { 4 }, &mut |s| us.push(s.to_string()));
+    for s in &us {
+        unescape_case(&mut out, s, "unesc.exhaustive");
+    }
+    // every `\hh`, both cases, alone and after a lead byte that it may or may not complete
+    for x in 0u32..256 {
+        unescape_case(&mut out, &format!("\\{:02x}", x), "unesc.hh");
+        unescape_case(&mut out, &format!("\\{:02X}", x), "unesc.hh");
+        unescape_case(&mut out, &format!("\\c3\\{:02x}", x), "unesc.hh");
+        unescape_case(&mut out, &format!("\\e0\\{:02x}\\80", x), "unesc.hh");
+    }
+    // ---- random Unicode strings
+    let nrand = if thorough { 100000 } else { 8000 };
+    for _ in 0..nrand {
+        let v = random_string(&mut rng);
+        escape_case(&mut out, &v, "random");
+        if rng.chance(1, 8) {
+            let w = random_string(&mut rng);
+            dn_structure_case(&mut out, &v, &w);
+        }
+    }
+    for _ in 0..nrand {
+        let s = random_unesc_input(&mut rng);
+        unescape_case(&mut out, &s, "unesc.random");
+    }
+    out.finish("nontrivial = the string contains a byte that ldap_escape or dn_escape must escape (escape cases) / contains a backslash (unescape cases); distinct by the string");
 }
